@@ -171,7 +171,11 @@ def evaluate(case):
     last_threads = [o for o in ops if o["op"][0] == "threads" and o["result"][0] == "ok"]
     if last_threads:
         alive = [n for n in last_threads[-1]["result"][1] if n.split("-")[0] in WORKER]
-        if action in ("shutdown", "drop", "exit", "drop-pending") and alive:
+        still_pending = sorted(n for n, f in w.futs.items() if f is not None and not f.done()) if action == "drop" else []
+        if still_pending:
+            # (a schedule in which a cancel() was refused left a future pending: it rightly keeps its executor going)
+            info["drop_with_pending"] = still_pending
+        elif action in ("shutdown", "drop", "exit", "drop-pending") and alive:
             bad("worker-alive-after-%s" % action, alive=alive)
         if action == "forget" and not alive:
             bad("worker-gone-although-executor-alive")
@@ -188,6 +192,8 @@ def account(ctx, case, viols, info, extra=()):
     if info.get("inconclusive"):
         ctx.inconclusive += 1
     cls = ["end:" + info["end"], "action:%s" % case.get("action"), "preempt:%d" % min(info.get("preemptions", 0), 3)] + list(extra)
+    if info.get("drop_with_pending"):
+        cls.append("drop:a-future-was-still-pending(worker-may-live)")
     nt = info.get("preemptions", 0) >= 1 or case.get("action") in ("forget", "drop-pending")
     ctx.case(case, nt, cls, sample={"case": case})
     new = False
